@@ -139,11 +139,11 @@ func straceArgs(f *Fault, traceFile, src, dst string) []string {
 }
 
 type probeRun struct {
-	res      ProbeResult
-	hits     []string // names of the syscalls that were tampered with, in order
-	exdev    int      // rename* calls answered with the forced error
-	harness  string   // non-empty: the probe itself failed (not a verdict about glb)
-	timedOut bool
+	res        ProbeResult
+	hits       []string // names of the syscalls that were tampered with, in order
+	renameHits int      // rename* calls answered with the forced error
+	harness    string   // non-empty: the probe itself failed (not a verdict about glb)
+	timedOut   bool
 }
 
 // runProbe executes one call in a child process of this binary.
@@ -186,6 +186,15 @@ func runProbe(op, src, dst string, f *Fault, scratch string) probeRun {
 		pr.harness = "start: " + err.Error()
 		return pr
 	}
+	pgid := cmd.Process.Pid
+	probeMu.Lock()
+	probePgids[pgid] = true
+	probeMu.Unlock()
+	defer func() {
+		probeMu.Lock()
+		delete(probePgids, pgid)
+		probeMu.Unlock()
+	}()
 	done := make(chan error, 1)
 	go func() { done <- cmd.Wait() }()
 	var werr error
@@ -209,7 +218,7 @@ func runProbe(op, src, dst string, f *Fault, scratch string) probeRun {
 				}
 				name := syscallName(ln)
 				if strings.HasPrefix(name, "rename") && f.RenameErr != "" && strings.Contains(ln, f.RenameErr) {
-					pr.exdev++
+					pr.renameHits++
 					continue
 				}
 				pr.hits = append(pr.hits, name)
@@ -260,7 +269,13 @@ func clipStr(s string, n int) string {
 	return s
 }
 
-const stracePath = "/usr/bin/strace"
+// VERIF_C18_STRACE overrides the strace binary (used to test the "strace unusable" path).
+var stracePath = func() string {
+	if p := os.Getenv("VERIF_C18_STRACE"); p != "" {
+		return p
+	}
+	return "/usr/bin/strace"
+}()
 
 // straceUsable checks once per shard that strace can attach and tamper in this sandbox.
 func straceUsable(scratch string) (bool, string) {
